@@ -15,7 +15,7 @@ const char* const kOpNames[OK_N] = {"Q", "PARSE", "ADDCD", "NIST_NAME", "NIST_ID
                                     "DEPRECATED", "ERR_NEW", "MISC"};
 const char* const kFileMutNames[FM_N] = {"none", "no_ucell", "dup_ucell", "bad_ucell", "no_L", "short_atom_row", "nonnumeric_atom_row",
                                          "long_line", "no_EOF_marker", "truncated_text", "random_bytes", "empty", "long_name", "bad_S_line",
-                                         "extra_columns", "crlf", "no_atoms"};
+                                         "extra_columns", "crlf", "no_atoms", "no_final_newline"};
 
 #define XQ_NAMES
 #include "gen_queries.inc"
@@ -467,8 +467,10 @@ static void fmt_num(std::string& out, double v) {
 
 // Render a crystal file in the dialect of data/Crystals.dat.  *wellformed is set when the file follows the
 // dialect exactly (so a fault-free load must succeed and yield exactly `contents`).
-std::string render_crystal_file(const FileSpec& fs, bool* wellformed, std::vector<CrystalData>* contents, long* data_end) {
+std::string render_crystal_file(const FileSpec& fs, bool* wellformed, std::vector<CrystalData>* contents, long* data_end, bool* layout_only) {
   if (data_end) *data_end = 0;
+  if (layout_only) *layout_only = false;
+  bool layout = false;   // the text deviates from the shipped dialect only in ways that leave its content (names, cells, atoms) intact
   Rng r(fs.mseed * 31 + 5);
   std::string t;
   bool wf = true;
@@ -504,7 +506,7 @@ std::string render_crystal_file(const FileSpec& fs, bool* wellformed, std::vecto
       t += u; t += nl;
       if (hit && fs.mut == FM_DUP_UCELL) { t += u; t += nl; wf = false; }
     } else wf = false;
-    if (hit && fs.mut == FM_LONG_LINE) { t += "#UREF " + std::string(100 + r.below(300), 'r'); t += nl; /* dialect allows free #U lines; >99 chars splits in the reader */ wf = false; }
+    if (hit && fs.mut == FM_LONG_LINE) { t += "#UREF " + std::string(100 + r.below(300), 'r'); t += nl; /* dialect allows free #U lines; >99 chars splits in the reader */ layout = true; }
     t += "#UTEMP 300"; t += nl;
     snprintf(b, sizeof b, "#N  5"); t += b; t += nl;
     if (!(hit && fs.mut == FM_NO_L)) { t += "#L  AtomicNumber  Fraction  X  Y  Z"; t += nl; } else wf = false;
@@ -526,17 +528,23 @@ std::string render_crystal_file(const FileSpec& fs, bool* wellformed, std::vecto
     }
     if (contents) contents->push_back(d);
     if (data_end) *data_end = (long)t.size();
-    if (ci + 1 < fs.crystals.size() && r.chance(1, 6)) { t += nl; wf = false; }   // the shipped file has no blank line between the last atom row and the next "#S"
+    if (ci + 1 < fs.crystals.size() && r.chance(1, 6)) { t += nl; layout = true; }   // the shipped file has no blank line between the last atom row and the next "#S"
   }
-  if (fs.mut != FM_NO_EOF) { t += "#EOF"; t += nl; } else wf = false;
-  if (fs.mut == FM_CRLF) wf = false;
+  if (fs.mut == FM_NO_FINAL_NL) {
+    // a text file whose last line has no line terminator: either the "#EOF" marker or the last atom row
+    if (fs.mseed & 1) t += "#EOF";
+    else if (t.size() >= strlen(nl)) t.resize(t.size() - strlen(nl));
+    layout = true;
+  } else if (fs.mut != FM_NO_EOF) { t += "#EOF"; t += nl; } else layout = true;
+  if (fs.mut == FM_CRLF) layout = true;
   if (fs.mut == FM_TRUNC_TEXT && !t.empty()) { t.resize(r.below(t.size())); wf = false; }
   // duplicate names inside one file are outside "well-formed"
   for (size_t i = 0; i < fs.crystals.size(); i++)
     for (size_t j = i + 1; j < fs.crystals.size(); j++)
       if (fs.crystals[i].name == fs.crystals[j].name) wf = false;
   if (fs.crystals.empty()) wf = wf && true;  // a file with no crystals at all is well-formed and adds nothing
-  *wellformed = wf;
+  *wellformed = wf && !layout;
+  if (layout_only) *layout_only = wf && layout;
   return t;
 }
 
@@ -731,7 +739,13 @@ void gen_history(Rng& r, const GenCfg& cfg, std::vector<Op>& out, int& next_id, 
       if (arr < 0 || (n_arrays < 3 && a < 8)) {
         o.kind = OK_CA_INIT;
         int q = r.range(0, 99);
-        o.i[0] = q < 8 ? 0 : q < 70 ? r.range(1, 4) : q < 92 ? r.range(5, 12) : q < 97 ? r.range(-3, -1) : r.range(13, 40);
+        o.i[0] = q < 8 ? 0 : q < 70 ? r.range(1, 4) : q < 90 ? r.range(5, 12) : q < 94 ? r.range(-3, -1) : q < 97 ? r.range(13, 40) : 0;
+        if (q >= 97) {
+          // "any integers": counts whose byte size no longer fits 32 bits (sizeof(Crystal_Struct) is 80), type limits
+          static const int big[] = {0x7fffffff, 0x7fffffff / 80, 0x7fffffff / 80 + 1, 53687091, 53687092, 1 << 26, 1 << 28, 1 << 29, 1 << 30, 65536,
+                                    (int)0x80000000, 0x7fffffff - 9};
+          o.i[0] = big[r.below(sizeof big / sizeof big[0])];
+        }
         if (o.i[0] >= 0) { st.hs.push_back({id, HT_ARRAY, false}); n_arrays++; }
       } else if (a < 40) {
         o.kind = OK_CA_ADD; o.h[0] = use_builtin ? -2 : arr;
